@@ -54,16 +54,17 @@ def leaf_range(v):
     return lo, hi
 
 
-def pk_fields(v):
-    """(rho node, tr node, t1 node) of a PublicKey summary (possibly wrapped in Ok / a key pair)"""
-    if isinstance(v, dict) and "enum" in v:
-        v = v["enum"].get("v0", [None])[0]
-    while isinstance(v, list) and len(v) == 1:
-        v = v[0]
-    if isinstance(v, list) and len(v) == 2 and isinstance(v[0], list):
-        v = v[0]  # (pk, sk)
-    if isinstance(v, list) and len(v) == 3:
-        return v
+def pk_fields(job):
+    """(rho node, tr node, precompute node) of the PublicKey in a job's result, by field type (32 bytes / 64 bytes / rest)"""
+    f = st.named_structs(job).get("types::PublicKey")
+    if not f:
+        return None
+    b = st.byte_fields(f)
+    rho = [nm for nm, (n, _) in b.items() if n == 32]
+    tr = [nm for nm, (n, _) in b.items() if n == 64]
+    rest = [nm for nm in f if nm not in b]
+    if len(rho) == 1 and len(tr) == 1 and len(rest) == 1:
+        return f[rho[0]], f[tr[0]], f[rest[0]]
     return None
 
 
@@ -78,13 +79,30 @@ def main(tier):
         else:
             rep.violation(key, detail)
 
+    samples = analyse(rep, ob, tier)
+    ksamples, kstats = c15.analyse(rep, ob, tier, {"power2round"}, prefix="D4:")
+    cov = {
+        "obligations": cnt[0], "discharged": cnt[1],
+        "checker_cmd": "python3 bin/check C11 (driver ai mode: exact-copy provenance tags, hash probes, obligations with the derived key)",
+        "trusted_base": ["abstract interpreter soundness", "hash model", "rules/assume.json for D5 obligations"],
+        "samples": samples, "kernels": kstats,
+        "explanation": "rho / tr equality with the private key's fields is decided exactly (copy provenance); t1 equality with the generated key is not decided",
+    }
+    return rep.finish("other", cov, ["t1 equality (ring arithmetic) not decided"])
+
+
+def analyse(rep, ob, tier, prefix="", with_use=True):
+    """rules D1-D5 on get_public_key for every private-key provenance; `with_use` adds the verify compositions of D5"""
+    if prefix:
+        ob0 = ob
+        ob = lambda ok, key, detail: ob0(ok, prefix + key, detail)
     sets = ["44", "65", "87"]
     jobs = {}
     for s in sets:
         n = roots.names(s)
         J = [("%s:derive/%s" % (s, p), n["get_public_key"], {"sk": p, "probe": "high_low::power2round"}) for p in roots.SK_PRODUCERS]
         J += [("%s:ref/keygen" % s, n["keygen_from_seed"], {}), ("%s:ref/from_bytes" % s, n["pk_from_bytes"], {})]
-        for root in ("verify", "hash_verify", "internal_verify"):
+        for root in (("verify", "hash_verify", "internal_verify") if with_use else ()):
             J.append(("%s:use/%s" % (s, root), n[root], {"pk": "derived_from_bytes", "len.ctx": "0..255"}))
         jobs[s] = J
     res, errs = aicheck.run_sets(jobs)
@@ -104,14 +122,14 @@ def main(tier):
         if bad:
             vlib.fail_closed(rep, "job:%s" % s, {a: J[a].get("error") or "over budget" for a in bad})
             continue
-        refs = [pk_fields(J["ref/keygen"]["result"]), pk_fields(J["ref/from_bytes"]["result"])]
+        refs = [pk_fields(J["ref/keygen"]), pk_fields(J["ref/from_bytes"])]
         ref_rng = None
         if all(refs):
             a, b = leaf_range(refs[0][2]), leaf_range(refs[1][2])
             ref_rng = (min(a[0], b[0]), max(a[1], b[1]))
         for prod in roots.SK_PRODUCERS:
             j = J["derive/%s" % prod]
-            f = pk_fields(j["result"])
+            f = pk_fields(j)
             if not f:
                 vlib.fail_closed(rep, "shape:%s:%s" % (s, prod), str(j["result"])[:300])
                 continue
@@ -159,15 +177,7 @@ def main(tier):
         for x in viol:
             ob(False, "D5:obligation:" + aicheck.stable_key(x), aicheck.site_report(x))
         ob(True, "D5:%s" % s, {})
-    ksamples, kstats = c15.analyse(rep, ob, tier, {"power2round"}, prefix="D4:")
-    cov = {
-        "obligations": cnt[0], "discharged": cnt[1],
-        "checker_cmd": "python3 bin/check C11 (driver ai mode: exact-copy provenance tags, hash probes, obligations with the derived key)",
-        "trusted_base": ["abstract interpreter soundness", "hash model", "rules/assume.json for D5 obligations"],
-        "samples": samples, "kernels": kstats,
-        "explanation": "rho / tr equality with the private key's fields is decided exactly (copy provenance); t1 equality with the generated key is not decided",
-    }
-    return rep.finish("other", cov, ["t1 equality (ring arithmetic) not decided"])
+    return samples
 
 
 if __name__ == "__main__":
